@@ -165,8 +165,42 @@ def run(ctx, model_ok):
         'xs := ["a", "b"]\nfor [i, v] in xs {\n    print($"${v}${ $"${v}" }")\n}\n',
         'a := "1"\nb := "2"\nfn f(p) {\n    return $"[${p}]"\n}\nprint(f(a) + f(b) + $"${f($"${a}")}${f($"${b}")}")\n',
     )]
+    # what those five programs print (escapes are spellings, slots are program text)
+    interp_expected = ["héllo, wörld!\n", "1: <x>\n2: <y>\n3: <x> <y>\n", "A: hello world\nA: hello world\nAB world C world\n",
+                       "aa\nbb\n", "[1][2][1][2]\n"]
+    ib = [s for l, s in bases if l == "interp"]
+    for src, want, r in zip(ib, interp_expected, core.cli_batch(ib)):
+        if (r["stdout"], r["status"]) != (want, "0"):
+            ctx.violation(f"C09: an interpolated literal is not read as its pieces and slots: expected {want!r}", src, {"cli": r})
     seen = set()
     bases = [(l, s) for l, s in bases if not (s in seen or seen.add(s))]
+    # the text of an interpolation slot is program text too: blanks after `${` (the layout engine above leaves literals alone)
+    slot_bases = [s for l, s in bases if "${" in s and l in ("interp", "progs", "progs-small")]
+    slot_variants = []
+    for sb in slot_bases:
+        k = sb.count("${")
+        forms = {sb.replace("${", "${ "), sb.replace("${", "${  ", 1), "${\t".join(sb.rsplit("${", 1))}
+        if k >= 2:
+            i2 = sb.index("${", sb.index("${") + 2)
+            forms.add(sb[:i2] + "${   " + sb[i2 + 2:])
+        for f in forms:
+            if f != sb:
+                slot_variants.append((sb, f))
+    runs = core.run_batch("impl", [b for b, _ in slot_variants] + [v for _, v in slot_variants])
+    ctx.count("slot_interior:run", len(runs))
+    nb = len(slot_variants)
+    reported_slots = 0
+    for (sb, sv), rb, rv in zip(slot_variants, runs[:nb], runs[nb:]):
+        ctx.nontrivial(("slot-interior", rb["status"], sb.count("${")))
+        same = (rb["stdout"], rb["status"]) == (rv["stdout"], rv["status"]) and \
+            re.sub(r"\d+:\d+", "", rb["stderr"]) == re.sub(r"\d+:\d+", "", rv["stderr"])
+        if not same and reported_slots < 2:
+            cb, cv = core.cli_batch([sb, sv])
+            if (cb["stdout"], cb["status"]) != (cv["stdout"], cv["status"]) or \
+                    re.sub(r"\d+:\d+", "", cb["stderr"]) != re.sub(r"\d+:\d+", "", cv["stderr"]):
+                reported_slots += 1
+                ctx.violation("C09: blanks inserted after `${` inside an interpolated literal changed behaviour", sv,
+                              {"original": sb, "original_cli": cb, "rewritten_cli": cv})
     state = {"reported": {}, "samples": set(), "tie_budget": 6000 if thorough else 1500}
     chunk = 200
     for k in range(0, len(bases), chunk):
